@@ -7,9 +7,15 @@
 #include "common_types.h"
 #include "core_timing.h"
 
+#ifdef TEAKRA_VERIF
+struct TeakraVerifAccess; // verification hook: read/seed private state
+#endif
 namespace Teakra {
 
 class Btdmp : public CoreTiming::Callbacks {
+#ifdef TEAKRA_VERIF
+    friend struct ::TeakraVerifAccess;
+#endif
 public:
     Btdmp(CoreTiming& core_timing);
     ~Btdmp();
